@@ -129,7 +129,7 @@ def replay_one(job):
 def run_toy(chk, quick, rnd, pid, kinds=None):
     """Returns list of mismatch records (each with `term`); counts go into chk."""
     cfg = tlc.SPEC_DIR / f"_gen_toy_{pid}.cfg"
-    cfg.write_text(f"CONSTANT Small = {'TRUE' if quick else 'FALSE'}\nSPECIFICATION Spec\nCHECK_DEADLOCK FALSE\n")
+    cfg.write_text(f"CONSTANTS\n  Small = {'TRUE' if quick else 'FALSE'}\n  WithPid = FALSE\nSPECIFICATION Spec\nCHECK_DEADLOCK FALSE\n")
     dump = chk.work / "toy"
     try:
         res = tlc.run("MC_Dag", cfg.name, workdir=chk.work, workers=16, dump=dump, timeout=1800)
